@@ -7,7 +7,22 @@ use pest::error::Error;
 struct Locust;
 
 pub fn parse_lines(lines: &str) -> Result<Pairs<crate::parsers::locust::Rule>, Error<crate::parsers::locust::Rule>> {
-    Locust::parse(Rule::EXP, lines)
+    let pairs = Locust::parse(Rule::EXP, lines)?;
+    // `EXP` stops at the first line it cannot make sense of (an `if`
+    // without `fi`, a stray `done`, ...). What is left must not be dropped
+    // silently: it is a syntax error.
+    let end = pairs.clone().next().map(|p| p.as_span().end()).unwrap_or(0);
+    if !lines[end..].trim().is_empty() {
+        let pos = match pest::Position::new(lines, end) {
+            Some(x) => x,
+            None => pest::Position::from_start(lines),
+        };
+        let variant = pest::error::ErrorVariant::CustomError {
+            message: String::from("unbalanced or unexpected block keyword (if/else/fi, for/while/done)"),
+        };
+        return Err(Error::new_from_pos(variant, pos));
+    }
+    Ok(pairs)
 }
 
 #[cfg(test)]
